@@ -27,7 +27,7 @@ RULE = ("enumerated: every length 8*b+r (b = L//8 for every L of the boundary le
         "objects around the 100 MiB tofile chunk size written to a hashing sink.  key = (direction/op, "
         "container, length mod 8, route or window class, size class); non-trivial = at least one bit of "
         "content (serialisers) / non-empty selected window (read-back)")
-ANCHORS = ['BitStore.tobytes', 'Bits.tobytes', 'Bits.__bytes__', 'Bits._getbytes', 'Bits.tofile', 'Bits.cut',
+ANCHORS = ['BitStore.tobytes', 'Bits.tobytes', 'Bits.__bytes__', 'Bits._getbytes', 'Bits.tofile',
            'Bits._setbytes_with_truncation', 'Bits._setfile', 'Bits._setauto', 'Array.tobytes', 'Array.tofile',
            'Array.fromfile']
 REQUIRED_OPS = ['tobytes', 'bytes()', '.bytes', 'tofile', 'tofile:failing-sink', 'Array.tobytes', 'Array.tofile',
@@ -643,7 +643,10 @@ def judge_chunk(ctx, c):
 
         if 'hash' in obs:
             sink = HashSink()
-            got = call(lambda: b.tofile(sink))
+            with util.options(lsb0=bool(c.get('lsb0'))):     # what is written does not depend on the bit numbering in force
+                got = call(lambda: b.tofile(sink))
+            if c.get('lsb0'):
+                ic += ',lsb0'
             ctx.op('tofile:chunked', _outcome(got))
             ctx.extra.setdefault('chunk_write_sizes', []).append({'nbits': nbits, 'source': source, 'writes': sink.sizes})
             if got[0] == 'exc':
@@ -932,7 +935,8 @@ def chunk_cases(ctx):
     big = CHUNK + 8 * 1234 - 3
     out = [(0, {'kind': 'chunk', 'nbits': big, 'source': 'memory', 'obs': ['hash', 'tobytes', 'fail']}),
            # exactly one chunk: the regime where a "remainder" write has nothing left (quick tier too, in another shard)
-           (1, {'kind': 'chunk', 'nbits': CHUNK, 'source': 'memory', 'obs': ['hash', 'fail']})]
+           (1, {'kind': 'chunk', 'nbits': CHUNK, 'source': 'memory', 'obs': ['hash', 'fail']}),
+           (2, {'kind': 'chunk', 'nbits': big + 8, 'source': 'memory', 'obs': ['hash'], 'lsb0': True})]
     if not ctx.quick:
         out += [
             (2, {'kind': 'chunk', 'nbits': CHUNK - 1, 'source': 'memory', 'obs': ['hash', 'fail']}),
@@ -942,6 +946,8 @@ def chunk_cases(ctx):
             (5, {'kind': 'chunk', 'nbits': CHUNK + 8 * 1234, 'source': 'file', 'cls': 'ConstBitStream', 'obs': ['hash', 'fail']}),
             (6, {'kind': 'chunk', 'nbits': big, 'source': 'memory', 'cls': 'BitArray', 'obs': ['readback']}),
             (7, {'kind': 'chunk', 'nbits': 2 * CHUNK + 8 * 3 + 1, 'source': 'memory', 'cls': 'BitStream', 'obs': ['hash']}),
+            (9, {'kind': 'chunk', 'nbits': 2 * CHUNK + 5, 'source': 'memory', 'cls': 'BitArray', 'obs': ['hash'], 'lsb0': True}),
+            (10, {'kind': 'chunk', 'nbits': CHUNK + 8 * 77, 'source': 'file', 'cls': 'Bits', 'obs': ['hash'], 'lsb0': True}),
         ]
     return [(s % ctx.nshards, c) for s, c in out]
 
